@@ -281,6 +281,8 @@ func allDischarged(obs []*Obligation) bool {
 	return true
 }
 
+var holeSearchSpent time.Duration
+
 func (c *checkCtx) resolveHoles(tg FuncTarget, fc *FuncContract, pinned []*Obligation, only map[string]bool) []*Obligation {
 	cfg := *c.cfg
 	cfg.needTwo = false
@@ -296,6 +298,16 @@ func (c *checkCtx) resolveHoles(tg FuncTarget, fc *FuncContract, pinned []*Oblig
 	}
 	key := fc.Pkg + "." + fc.Name
 	saved := c.V.holeRes[key]
+	// The search for another assignment is a courtesy to the format-relative properties (a consistent two-sided
+	// change of byte order is C02 / C03's business, not theirs). It must not make the check of a broken tree
+	// run for a quarter of an hour: alternatives get a short time limit and no second attempt, and the whole
+	// search has a budget per check; without a search the pinned failures are reported as they are.
+	if holeSearchSpent > 90*time.Second {
+		return nil
+	}
+	t0 := time.Now()
+	defer func() { holeSearchSpent += time.Since(t0) }()
+	cfg.timeout, cfg.retried = 5, true
 	// enumerate the other assignments
 	n := len(fc.Holes)
 	for mask := 1; mask < 1<<uint(n); mask++ {
@@ -507,7 +519,24 @@ func cmdCheck(args []string) int {
 		c.cfg.needTwo = true
 	}
 	defer os.RemoveAll(c.cfg.scratch)
-	if !c.plan() {
+	known := true
+	func() {
+		// fail closed: if the generator itself dies on the code it is given, the code is not verified -
+		// that is a failed obligation of this property (reported as such), not a crash with an unclear exit code
+		defer func() {
+			if r := recover(); r != nil {
+				msg := fmt.Sprint(r)
+				if len(msg) > 300 {
+					msg = msg[:300]
+				}
+				fmt.Fprintln(os.Stderr, "gocv: the obligation generator stopped:", msg)
+				c.obs = append(c.obs, &Obligation{Name: "gocv/plan(" + prop + ")/engine-limit", Func: "gocv", Kind: "subset", Props: []string{prop}, Goal: False,
+					Detail: "the verifier could not process the code of this plan (treated as outside the verified subset, nothing is proved): " + msg})
+			}
+		}()
+		known = c.plan()
+	}()
+	if !known {
 		fmt.Fprintln(os.Stderr, "unknown property", prop)
 		return 2
 	}
@@ -517,6 +546,9 @@ func cmdCheck(args []string) int {
 // plan generates the obligations of the property (its own and those of its dependency closure).
 func (c *checkCtx) plan() bool {
 	V := c.V
+	if os.Getenv("VERIF_TEST_PANIC") != "" { // self-test of the fail-closed guard in cmdCheck
+		panic("VERIF_TEST_PANIC")
+	}
 	V.tableMode = "extracted"
 	c.extractAllTables()
 	switch c.prop {
@@ -1040,6 +1072,15 @@ func (c *checkCtx) writeEvidence(total, ok, trivial int, by map[string]int, solv
 		"level":       "proof",
 		"coverage": map[string]interface{}{
 			"obligations": total,
+			"no_overflow_obligations_64bit": func() int {
+				n := 0
+				for _, o := range c.obs {
+					if strings.Contains(o.Name, "/no-overflow(") {
+						n++
+					}
+				}
+				return n
+			}(),
 			"obligations_of_the_property_plan": func() int {
 				n := 0
 				for _, o := range c.obs {
